@@ -30,13 +30,18 @@ def signBitMask (w : Nat) : Expr :=
   if signBit < 64 then constUint (2 ^ signBit) w
   else .binary .lsh Expr.one (constUint signBit 2) w
 
-/-- `bitMask`; needs `bitMaskOk` -/
-def bitMask (bits w : Nat) : Expr :=
+/-- the body of `bitMask` after the bit count has been clamped to the width; needs `bitMaskOk` -/
+def bitMaskRaw (bits w : Nat) : Expr :=
   if bits ≤ 64 then constUint (2 ^ bits - 1) w
   else sub (.binary .lsh Expr.one (constUint bits 2) w) Expr.one w
 
-/-- `NewConstUint` inside `bitMask` does not panic -/
+/-- `NewConstUint` inside `bitMaskRaw` does not panic -/
 def bitMaskOk (bits w : Nat) : Bool := bits > 64 || 2 ^ bits - 1 < 2 ^ (8 * w)
+
+/-- `bitMask`: a bit count above `w.Bits()` is clamped to it (repair of F34), so `bitMaskOk` always holds
+for the clamped count (`bitMaskOk_clamp`) -/
+def bitMask (bits w : Nat) : Expr :=
+  bitMaskRaw (if bits > 8 * w then 8 * w else bits) w
 
 def maskBits (e : Expr) (cnt w : Nat) : Expr := bitAnd e (bitMask cnt w) w
 def intNegative (e : Expr) (w : Nat) : Expr := bitAnd e (signBitMask w) w
